@@ -184,3 +184,31 @@ def run_session_body(P, note=None):
         c = contains(rx_calls=RS_INTEREST)
         P._rs_inl = inline_calls(P, base, lambda body, callee: not _re.search(RS_KEEP, callee) and c(body, callee), depth=2, note=note)
     return P._rs_inl
+
+
+def sidecar_appenders(P):
+    """the entry points that mirror one frame into the per-thread sidecar: methods of ContinuityStreamCache that take
+    an &Event, reach a line write (write_all) inside the cache module, and are called from outside that module.
+    (`append_best_effort` on the pinned tree; a fallible twin or a renamed entry point is found the same way.)"""
+    if hasattr(P, '_sc_app'):
+        return P._sc_app
+    MOD = 'ripd::continuity_stream_cache::'
+    out = []
+    for p, f in sorted(P.fns.items()):
+        if not p.startswith(MOD + 'ContinuityStreamCache::') or '{closure' in p or re.search(r'::rebuild_\w*$', p):
+            continue
+        if not any('rip_kernel::Event' in (f.lty(i) or '') and 'Vec<' not in (f.lty(i) or '') and '[' not in (f.lty(i) or '') for i in range(1, f.argc + 1)):
+            continue
+        reach = P.reach_fns([p], stop_rx=r'::rebuild_\w*$')
+        if not any(re.search(r'std::io::Write>::write_all$', x) for x in reach):
+            continue
+        if any(not s.fn.path.startswith(MOD) for s in P.callers('^' + re.escape(p) + '$')):
+            out.append(p)
+    if not out:
+        raise CheckError('no entry point of ContinuityStreamCache mirrors a frame into the sidecar (anchor missing)')
+    P._sc_app = out
+    return out
+
+
+def sidecar_append_rx(P):
+    return '^(' + '|'.join(re.escape(p) for p in sidecar_appenders(P)) + ')$'
